@@ -17,7 +17,7 @@ if [ -n "$SEEDCHECK_INPLACE" ]; then
   git -C /repo apply $S/patch.diff || exit 2
   (cd /repo; PYTHONPATH=/repo /venv/bin/python $S/demo.py >/dev/null 2>&1; echo "demo mutant exit=$?")
   for p in "$@"; do
-    PYVC_NO_EVIDENCE=1 /verif/check $p 2>&1 | grep "VIOLATION\|^C[0-9]*:\|UNDECIDED\|CHECKER" | cut -c1-220 | head -8
+    PYVC_NO_EVIDENCE=1 /verif/check $p 2>&1 | grep "VIOLATION\|^C[0-9]*:\|UNDECIDED\|CHECKER" | cut -c1-220 | head -12
   done
   git -C /repo checkout -- .
   git -C /repo status --short | head -3
@@ -29,6 +29,6 @@ cp -r /repo/beyond /repo/tests $D/
 patch -s -p1 -d $D < $S/patch.diff || { rm -rf $D; exit 2; }
 (cd $D; PYTHONPATH=$D /venv/bin/python $S/demo.py >/dev/null 2>&1; echo "demo mutant exit=$?")
 for p in "$@"; do
-  BEYOND_REPO=$D PYVC_NO_EVIDENCE=1 /verif/check $p 2>&1 | grep "VIOLATION\|^C[0-9]*:\|UNDECIDED\|CHECKER" | cut -c1-220 | head -8
+  BEYOND_REPO=$D PYVC_NO_EVIDENCE=1 /verif/check $p 2>&1 | grep "VIOLATION\|^C[0-9]*:\|UNDECIDED\|CHECKER" | cut -c1-220 | head -12
 done
 rm -rf $D
